@@ -411,6 +411,10 @@ pub fn observers_agree(root: &VfsPath, uni: &[String], stats: &mut ObsStats) -> 
                             problems.push(format!("read_dir('{}') lists '{}' which does not exist", u, cs));
                         }
                     }
+                    // the listing is an Iterator: every way of consuming it gives the same names
+                    if let Err(m) = crate::util::listing_iterator_contract(&|| p.read_dir().ok().map(|i| Box::new(i.map(|c| c.as_str().to_string())) as Box<dyn Iterator<Item = String>>)) {
+                        problems.push(format!("read_dir('{}'): {}", u, m));
+                    }
                     // every existing universe child is listed
                     for (k, v) in typ.range(prefix.clone()..) {
                         if !k.starts_with(&prefix) {
